@@ -324,6 +324,26 @@ class Driver:
                 i = tuple(i)
             a[i] = self.opnd(st["v"])
             return None
+        if op == "branchset":
+            # the array is held in a BranchingValues context and written inside an _if block: ctx.a[i] = v (i may be a tuple);
+            # afterwards the program goes on with the merged array the context holds (`a = _.a`): its contents are moved into
+            # the register's object so that later steps of the history see them
+            from pysnark.branching import BranchingValues, _if, _endif
+            ctx = BranchingValues()
+            orig = self.opnd(st["a"])
+            try:
+                ctx.a = orig
+                i = self.opnd(st["i"])
+                if isinstance(i, list):
+                    i = tuple(i)
+                v = self.opnd(st["v"])
+                _if(self.opnd(st["cond"]), ctx)
+                ctx.a[i] = v
+                _endif(ctx)
+                orig.arr = ctx.a.arr
+                return None
+            finally:
+                ctx.stack.clear()
         if op == "pack":
             return self.packer(st["schema"]).pack(self.opnd(st["a"]))
         if op == "unpack":
